@@ -401,6 +401,8 @@ def parts(ctx):
     ps = [Part("tagged-npu%02d" % i, tagged, ("npu", i, 22 if q else 700)) for i in range(8)]
     ps += [Part("tagged-cascade%02d" % i, tagged, ("cascade", i, 10 if q else 300)) for i in range(4)]
     ps += [Part("tagged-luts%02d" % i, tagged, ("luts", i, 10 if q else 300)) for i in range(2)]
+    ps += [Part("tagged-fanout%02d" % i, tagged, ("fanout", i, 16 if q else 500)) for i in range(4)]
+    ps += [Part("poison-fanout%02d" % i, poison, ("fanout", i, 8 if q else 300)) for i in range(2)]
     ps += [Part("poison%02d" % i, poison, (["cascade", "exact", "slices", "mixed", "approx", "convs"][i % 6], i, 8 if q else 300)) for i in range(6)]
     return ps
 
